@@ -840,6 +840,13 @@ class Workflow(Trellis):
     """
 
     target_dirs: frozenset[Path] = attrs.field(kw_only=True, factory=frozenset, converter=frozenset)
+
+    declared_again: set[int] = attrs.field(init=False, factory=set)
+    """The ids of steps whose row was created anew while their command was running.
+
+    `Step.initialize_row` adds the id, the executor takes it out when that command has ended
+    and discards its verdict. It is not stored: a command does not outlive the director.
+    """
     """The directories `stepup build` was asked to produce everything under.
 
     Entries always carry their trailing slash.
